@@ -11,7 +11,7 @@ VARIABLE l
 
 Panicked(r) == r # None /\ r[1] = 0
 SplitOK(m, r) == \/ r = None \/ Panicked(r)
-                 \/ /\ Len(r) = 2 /\ r[1] > 1 /\ r[2] > 1 /\ r[1] * r[2] = m
+                 \/ /\ Len(r) = 2 /\ r[1] > 1 /\ r[1] < m /\ m % r[1] = 0 /\ r[2] = m \div r[1]   \* by division: no overflow on a wrong pair
 
 SameAsModel(m, r) == LET p == Squfof(m) IN IF Panicked(p) THEN Panicked(r) ELSE r = p
 
